@@ -46,7 +46,7 @@ def main():
                 "design_ref": f"DESIGN.md §4 {pid}",
             },
             "level_note": "Decides the named structural necessary conditions on /repo's current type-checked SSA (all module packages, every run); does not execute the code. Trusted base: go/types, go/ssa (x/tools v0.29.0), the polyverif engines. Path-insensitive: infeasible paths count as feasible (can only cause an alarm or BROKEN, never a pass). Dependency code is analysed by signature only.",
-            "technique": "static analysis: " + TECH.get(pid, "repository-specific SSA/CFG rules"),
+            "technique": "static analysis: " + (r.get("Technique") or TECH.get(pid, "repository-specific SSA/CFG rules")),
         })
     na = []
     for pid in ids:
